@@ -35,6 +35,30 @@ func runC03(c *Ctx) {
 			c.Inc("long_programs_with_a_label_per_line")
 		}
 		p := asm.GenProg(r, o)
+		if o.ExactLines == 0 && r.Chance(1, 8) {
+			// lines that differ only in where the text splits into operands: "12, 3" / "1, 23" / "12" / "1, 2", "5-2" / "5, -2"
+			lit := func(v int) asm.Expr { return asm.Lit{V: v} }
+			op := []string{"dat", "mov", "add", "jmp"}[r.Intn(4)]
+			x, y, z := 1+r.Intn(9), r.Intn(10), 1+r.Intn(9)
+			two := func(a, b asm.Expr) *asm.Instr { return &asm.Instr{Op: op, A: asm.Operand{E: a}, B: &asm.Operand{E: b}} }
+			one := func(a asm.Expr) *asm.Instr { return &asm.Instr{Op: op, A: asm.Operand{E: a}} }
+			var twins []asm.Item
+			switch r.Intn(3) {
+			case 0:
+				twins = []asm.Item{two(lit(x), lit(y*10+z)), two(lit(x*10+y), lit(z))}
+			case 1:
+				twins = []asm.Item{two(lit(x), lit(z)), one(lit(x*10 + z))}
+			default:
+				twins = []asm.Item{two(lit(x), asm.Un{Signs: "-", X: lit(z)}), one(asm.Bin{Op: '-', L: lit(x), R: lit(z)})}
+			}
+			if r.Bool() {
+				twins[0], twins[1] = twins[1], twins[0]
+			}
+			if op == "jmp" || op == "dat" || d == asm.D94 {
+				p.Items = append(p.Items, twins...)
+				c.Inc("programs_with_lines_differing_only_in_the_operand_split")
+			}
+		}
 		mn, err := p.Meaning()
 		if err != nil {
 			c.Inc("skipped_outside_domain")
